@@ -76,6 +76,11 @@ def run(ck: Check):
         try:
             p = cparse.parse_unit(text, W)
         except cparse.ParseError as e:
+            if any(k in str(e) for k in ("undeclared array", "declared twice", "unknown name")):
+                # not a form the parser does not know: the program names an array / a temporary that it does not declare (it would
+                # not even compile, or it reads another layer's buffer) - this is the property failing, with the model as the input
+                ck.disagree("generated logic_net is not well formed: it refers to an array or temporary that is not declared (or declares one twice)",
+                            dict(case, parser=str(e)[:200]), signature={"what": "ill-formed", "kind": kind})
             ck.broke("correspondence", "parse emitted C", f"{kind} case {idx}: {e}")
             continue
         p["sizes"][0], p["sizes"][1] = n_in, n_out
